@@ -204,49 +204,23 @@ Check confed_rewrite :
 Print Assumptions confed_rewrite.
 
 (* (9) Every advertisement of a route whose source is LLGR-stale carries LLGR_STALE
-   (both versions of the code, any role, any decodability-preserving policy). *)
+   (any role, any decodability-preserving policy). *)
 Theorem llgr_stale_marked :
-  forall fixed x pol emax raddr cid c e r d pid nh out s,
+  forall x pol emax raddr cid c e r d pid nh out s,
     policy_keeps_decodable pol ->
     (forall p, In p (c_paths c) -> decodable (p_attrs p)) ->
-    process_change_v fixed x pol emax raddr cid c e = Ok r -> In (Reach d pid nh out s) (fst r) ->
+    process_change x pol emax raddr cid c e = Ok r -> In (Reach d pid nh out s) (fst r) ->
     src_llgr s = true -> carries_llgr_stale out.
 Proof. exact C09_llgr_stale_marked. Qed.
 Check llgr_stale_marked :
-  forall fixed x pol emax raddr cid c e r d pid nh out s,
+  forall x pol emax raddr cid c e r d pid nh out s,
     policy_keeps_decodable pol ->
     (forall p, In p (c_paths c) -> decodable (p_attrs p)) ->
-    process_change_v fixed x pol emax raddr cid c e = Ok r -> In (Reach d pid nh out s) (fst r) ->
+    process_change x pol emax raddr cid c e = Ok r -> In (Reach d pid nh out s) (fst r) ->
     src_llgr s = true -> carries_llgr_stale out.
 Print Assumptions llgr_stale_marked.
 
-(* (9') ... and, after the repository fix, the copy a neighbour holds does not stay
-   unmarked: once Table::restale_llgr has reported the start of the LLGR period
-   of the route's source, whatever the neighbour holds for the route carries
-   LLGR_STALE (it was re-advertised, or withdrawn). *)
-Theorem llgr_stale_readvertised :
-  forall x pol emax raddr cid ps nh attrs ops1 ops2 e v,
-    policy_keeps_decodable pol -> decodable attrs ->
-    llgr_scenario x pol emax raddr cid ps nh attrs = Ok (ops1, ops2, e) ->
-    view_after (ops1 ++ ops2) 1 (if emax =? 1 then 0 else 1) None = Some v ->
-    carries_llgr_stale v.
-Proof. exact C09_llgr_stale_readvertised. Qed.
-Check llgr_stale_readvertised :
-  forall x pol emax raddr cid ps nh attrs ops1 ops2 e v,
-    policy_keeps_decodable pol -> decodable attrs ->
-    llgr_scenario x pol emax raddr cid ps nh attrs = Ok (ops1, ops2, e) ->
-    view_after (ops1 ++ ops2) 1 (if emax =? 1 then 0 else 1) None = Some v ->
-    carries_llgr_stale v.
-Print Assumptions llgr_stale_readvertised.
 
-(* (9'') The same statement about the code as found (fixed = false) is false:
-   finding C09-1, fixed by the repository commit named in known_findings.json. *)
-Theorem llgr_stale_readvertised_refuted :
-  ~ pre_fix_llgr_statement.
-Proof. exact C09_llgr_stale_readvertised_refuted. Qed.
-Check llgr_stale_readvertised_refuted :
-  ~ pre_fix_llgr_statement.
-Print Assumptions llgr_stale_readvertised_refuted.
 
 (* (10) Unknown transitive attributes of the route are forwarded with Partial set,
    unknown non-transitive ones are dropped, nothing unknown is invented. *)
@@ -360,19 +334,19 @@ Check policy_actions_keep_decodable :
 Print Assumptions policy_actions_keep_decodable.
 
 (* process_nlri_change cannot panic (no slice index / unwrap of the AS_PATH edits is
-   reached) on attribute vectors the UPDATE decoder produces, for either version of
-   the code and every policy that keeps vectors decodable. *)
+   reached) on attribute vectors the UPDATE decoder produces, for every policy that keeps
+   vectors decodable. *)
 Theorem no_panic_on_decodable :
-  forall fixed x pol emax raddr cid c e,
+  forall x pol emax raddr cid c e,
     wf_ctx x -> policy_keeps_decodable pol ->
     (forall p, In p (c_paths c) -> decodable (p_attrs p)) ->
-    exists r, process_change_v fixed x pol emax raddr cid c e = Ok r.
+    exists r, process_change x pol emax raddr cid c e = Ok r.
 Proof. exact C09_no_panic_on_decodable. Qed.
 Check no_panic_on_decodable :
-  forall fixed x pol emax raddr cid c e,
+  forall x pol emax raddr cid c e,
     wf_ctx x -> policy_keeps_decodable pol ->
     (forall p, In p (c_paths c) -> decodable (p_attrs p)) ->
-    exists r, process_change_v fixed x pol emax raddr cid c e = Ok r.
+    exists r, process_change x pol emax raddr cid c e = Ok r.
 Print Assumptions no_panic_on_decodable.
 
 (* The segment view used by the statements above is unambiguous: the RFC 4271 reader
@@ -384,65 +358,8 @@ Check as_path_view_unambiguous :
   forall p, wf_path p -> parse_path (encode_path p) = Some p.
 Print Assumptions as_path_view_unambiguous.
 
-(* (9c) The general form of the re-advertisement, for ANY change and export map
-   (not only the one-path scenario): when a change with any_changed arrives for a
-   destination all of whose paths are LLGR-stale, everything the neighbour holds for
-   it is re-advertised or withdrawn, so that what it holds afterwards carries
-   LLGR_STALE. *)
-Theorem llgr_view_refreshed :
-  forall x pol emax raddr cid c e r pid v0 v,
-    policy_keeps_decodable pol ->
-    (forall p, In p (c_paths c) -> decodable (p_attrs p) /\ src_llgr (p_src p) = true) ->
-    c_any_changed c = true ->
-    (if emax =? 1 then pid = 0 /\ c_paths c <> [] /\ em_was_sent e (c_dest c) = true
-     else was_sent_path e (c_dest c) pid) ->
-    process_change x pol emax raddr cid c e = Ok r ->
-    view_after (fst r) (c_dest c) pid v0 = Some v -> carries_llgr_stale v.
-Proof. exact C09_llgr_view_refreshed. Qed.
-Check llgr_view_refreshed :
-  forall x pol emax raddr cid c e r pid v0 v,
-    policy_keeps_decodable pol ->
-    (forall p, In p (c_paths c) -> decodable (p_attrs p) /\ src_llgr (p_src p) = true) ->
-    c_any_changed c = true ->
-    (if emax =? 1 then pid = 0 /\ c_paths c <> [] /\ em_was_sent e (c_dest c) = true
-     else was_sent_path e (c_dest c) pid) ->
-    process_change x pol emax raddr cid c e = Ok r ->
-    view_after (fst r) (c_dest c) pid v0 = Some v -> carries_llgr_stale v.
-Print Assumptions llgr_view_refreshed.
 
-Theorem llgr_refresh_addpath :
-  forall x pol emax raddr cid c e r pid,
-    emax <> 1 -> process_change x pol emax raddr cid c e = Ok r ->
-    c_any_changed c = true ->
-    (forall p, In p (c_paths c) -> src_llgr (p_src p) = true) ->
-    was_sent_path e (c_dest c) pid ->
-    exists op, In op (fst r) /\ touches (c_dest c) pid op = true.
-Proof. exact C09_llgr_refresh_addpath. Qed.
-Check llgr_refresh_addpath :
-  forall x pol emax raddr cid c e r pid,
-    emax <> 1 -> process_change x pol emax raddr cid c e = Ok r ->
-    c_any_changed c = true ->
-    (forall p, In p (c_paths c) -> src_llgr (p_src p) = true) ->
-    was_sent_path e (c_dest c) pid ->
-    exists op, In op (fst r) /\ touches (c_dest c) pid op = true.
-Print Assumptions llgr_refresh_addpath.
 
-Theorem llgr_refresh_best_only :
-  forall x pol raddr cid c e r,
-    process_change x pol 1 raddr cid c e = Ok r ->
-    c_any_changed c = true -> c_paths c <> [] ->
-    (forall p, In p (c_paths c) -> src_llgr (p_src p) = true) ->
-    em_was_sent e (c_dest c) = true ->
-    exists op, In op (fst r) /\ touches (c_dest c) 0 op = true.
-Proof. exact C09_llgr_refresh_best_only. Qed.
-Check llgr_refresh_best_only :
-  forall x pol raddr cid c e r,
-    process_change x pol 1 raddr cid c e = Ok r ->
-    c_any_changed c = true -> c_paths c <> [] ->
-    (forall p, In p (c_paths c) -> src_llgr (p_src p) = true) ->
-    em_was_sent e (c_dest c) = true ->
-    exists op, In op (fst r) /\ touches (c_dest c) 0 op = true.
-Print Assumptions llgr_refresh_best_only.
 
 (* The converse of (1)-(3): the three filters of process_nlri_change let a path
    through EXACTLY when BGP allows it to go to that receiver (Spec may_send: not back
@@ -479,31 +396,31 @@ Print Assumptions kernel_routes_withheld_from_nonclient_ibgp.
    the policy IS advertised (with the rewritten attributes and the policy's next hop);
    one that does not is withdrawn if it had been sent. *)
 Theorem best_only_complete :
-  forall fixed x pol raddr cid c e best rest,
+  forall x pol raddr cid c e best rest,
     c_best_changed c = true -> c_paths c = best :: rest ->
     (forall a nh out,
        visible x raddr cid best = true ->
        policy_stage x pol cid (c_family c) best = Some (a, nh) ->
        export_attrs x (llgr_stage best a) = Ok out ->
-       process_change_v fixed x pol 1 raddr cid c e
+       process_change x pol 1 raddr cid c e
        = Ok ([Reach (c_dest c) 0 nh out (p_src best)], em_mark_sent e (c_dest c) 0))
     /\ ((visible x raddr cid best = false \/ policy_stage x pol cid (c_family c) best = None) ->
-        process_change_v fixed x pol 1 raddr cid c e
+        process_change x pol 1 raddr cid c e
         = if em_was_sent e (c_dest c)
           then Ok ([Unreach (c_dest c) 0], em_mark_withdrawn e (c_dest c) 0)
           else Ok ([], e)).
 Proof. exact C09_best_only_complete. Qed.
 Check best_only_complete :
-  forall fixed x pol raddr cid c e best rest,
+  forall x pol raddr cid c e best rest,
     c_best_changed c = true -> c_paths c = best :: rest ->
     (forall a nh out,
        visible x raddr cid best = true ->
        policy_stage x pol cid (c_family c) best = Some (a, nh) ->
        export_attrs x (llgr_stage best a) = Ok out ->
-       process_change_v fixed x pol 1 raddr cid c e
+       process_change x pol 1 raddr cid c e
        = Ok ([Reach (c_dest c) 0 nh out (p_src best)], em_mark_sent e (c_dest c) 0))
     /\ ((visible x raddr cid best = false \/ policy_stage x pol cid (c_family c) best = None) ->
-        process_change_v fixed x pol 1 raddr cid c e
+        process_change x pol 1 raddr cid c e
         = if em_was_sent e (c_dest c)
           then Ok ([Unreach (c_dest c) 0], em_mark_withdrawn e (c_dest c) 0)
           else Ok ([], e)).
@@ -542,23 +459,23 @@ Print Assumptions history_view_allowed.
    on the inputs it survives, so every statement above about [advertised] carries over;
    and with a policy that never panics the two are the same function. *)
 Theorem process_change_r_lower :
-  forall fixed x polr emax raddr cid c e r,
-    process_change_r fixed x polr emax raddr cid c e = Ok r ->
-    process_change_v fixed x (lower_policy polr) emax raddr cid c e = Ok r.
+  forall x polr emax raddr cid c e r,
+    process_change_r x polr emax raddr cid c e = Ok r ->
+    process_change x (lower_policy polr) emax raddr cid c e = Ok r.
 Proof. exact C09_process_change_r_lower. Qed.
 Check process_change_r_lower :
-  forall fixed x polr emax raddr cid c e r,
-    process_change_r fixed x polr emax raddr cid c e = Ok r ->
-    process_change_v fixed x (lower_policy polr) emax raddr cid c e = Ok r.
+  forall x polr emax raddr cid c e r,
+    process_change_r x polr emax raddr cid c e = Ok r ->
+    process_change x (lower_policy polr) emax raddr cid c e = Ok r.
 Print Assumptions process_change_r_lower.
 
 Theorem process_change_r_lift :
-  forall fixed x pol emax raddr cid c e,
-    process_change_r fixed x (lift_policy pol) emax raddr cid c e = process_change_v fixed x pol emax raddr cid c e.
+  forall x pol emax raddr cid c e,
+    process_change_r x (lift_policy pol) emax raddr cid c e = process_change x pol emax raddr cid c e.
 Proof. exact C09_process_change_r_lift. Qed.
 Check process_change_r_lift :
-  forall fixed x pol emax raddr cid c e,
-    process_change_r fixed x (lift_policy pol) emax raddr cid c e = process_change_v fixed x pol emax raddr cid c e.
+  forall x pol emax raddr cid c e,
+    process_change_r x (lift_policy pol) emax raddr cid c e = process_change x pol emax raddr cid c e.
 Print Assumptions process_change_r_lift.
 
 (* The AS_PATH edits as used by an export policy's as-prepend action compose with the
@@ -572,7 +489,7 @@ Theorem policy_prepend_then_export :
     wf_ctx x -> (x_role x = Ebgp \/ x_role x = ConfedEbgp) ->
     pa_left_most pa = false -> pa_asn pa < 4294967296 -> pa_repeat pa <> 0 ->
     (forall p, In p (c_paths c) -> decodable (p_attrs p)) ->
-    process_change_r true x (stmt_policy_r x raddr st (Some pa) default) emax raddr cid c e = Ok r ->
+    process_change_r x (stmt_policy_r x raddr st (Some pa) default) emax raddr cid c e = Ok r ->
     In (Reach d pid nh out s) (fst r) ->
     exists p, In p (c_paths c) /\ s = p_src p /\
       forall pin, path_of (p_attrs p) pin ->
@@ -588,7 +505,7 @@ Check policy_prepend_then_export :
     wf_ctx x -> (x_role x = Ebgp \/ x_role x = ConfedEbgp) ->
     pa_left_most pa = false -> pa_asn pa < 4294967296 -> pa_repeat pa <> 0 ->
     (forall p, In p (c_paths c) -> decodable (p_attrs p)) ->
-    process_change_r true x (stmt_policy_r x raddr st (Some pa) default) emax raddr cid c e = Ok r ->
+    process_change_r x (stmt_policy_r x raddr st (Some pa) default) emax raddr cid c e = Ok r ->
     In (Reach d pid nh out s) (fst r) ->
     exists p, In p (c_paths c) /\ s = p_src p /\
       forall pin, path_of (p_attrs p) pin ->
@@ -640,17 +557,17 @@ Print Assumptions rtc_filter_is_a_policy_wrapper.
    history that starts with nothing sent (so the hypothesis "was sent" of
    llgr_refresh_best_only means "the neighbour holds a copy"). *)
 Theorem export_map_tracks_view :
-  forall fixed x pol raddr cid c e r,
+  forall x pol raddr cid c e r,
     not_addpath e ->
-    process_change_v fixed x pol 1 raddr cid c e = Ok r ->
+    process_change x pol 1 raddr cid c e = Ok r ->
     not_addpath (snd r)
     /\ forall d v0, has_entry v0 = em_was_sent e d ->
          has_entry (view_after (fst r) d 0 v0) = em_was_sent (snd r) d.
 Proof. exact C09_export_map_tracks_view. Qed.
 Check export_map_tracks_view :
-  forall fixed x pol raddr cid c e r,
+  forall x pol raddr cid c e r,
     not_addpath e ->
-    process_change_v fixed x pol 1 raddr cid c e = Ok r ->
+    process_change x pol 1 raddr cid c e = Ok r ->
     not_addpath (snd r)
     /\ forall d v0, has_entry v0 = em_was_sent e d ->
          has_entry (view_after (fst r) d 0 v0) = em_was_sent (snd r) d.
@@ -666,3 +583,117 @@ Check export_map_tracks_view_history :
     run_changes x pol 1 raddr cid cs ENone = Ok r ->
     has_entry (view_after (fst r) d 0 None) = em_was_sent (snd r) d.
 Print Assumptions export_map_tracks_view_history.
+
+(* (9a) LLGR re-advertisement.  process_nlri_change is unchanged; Table::restale_llgr (since
+   03ea310) names every eligible path of the marked peer as replaced, in a change of its
+   own, and reports the best path as changed when it is one of them.  One-path scenario
+   (the one run against the real Table): whatever the neighbour holds for the route once
+   the LLGR period of its source has begun carries LLGR_STALE. *)
+Theorem llgr_stale_readvertised :
+  forall x pol emax raddr cid ps nh attrs ops1 ops2 e v,
+    policy_keeps_decodable pol -> decodable attrs ->
+    llgr_scenario x pol emax raddr cid ps nh attrs = Ok (ops1, ops2, e) ->
+    view_after (ops1 ++ ops2) 1 (if emax =? 1 then 0 else 1) None = Some v ->
+    carries_llgr_stale v.
+Proof. exact C09_llgr_stale_readvertised. Qed.
+Check llgr_stale_readvertised :
+  forall x pol emax raddr cid ps nh attrs ops1 ops2 e v,
+    policy_keeps_decodable pol -> decodable attrs ->
+    llgr_scenario x pol emax raddr cid ps nh attrs = Ok (ops1, ops2, e) ->
+    view_after (ops1 ++ ops2) 1 (if emax =? 1 then 0 else 1) None = Some v ->
+    carries_llgr_stale v.
+Print Assumptions llgr_stale_readvertised.
+
+(* (9b) With the stream restale_llgr reported BEFORE 03ea310 (best_changed = false when the
+   best keeps its place, no path named as replaced) the same statement is false of the
+   same exporter: finding C09-1, the same defect as C01-llgr-stale-not-resent. *)
+Theorem llgr_stale_readvertised_refuted :
+  ~ old_stream_llgr_statement.
+Proof. exact C09_llgr_stale_readvertised_refuted. Qed.
+Check llgr_stale_readvertised_refuted :
+  ~ old_stream_llgr_statement.
+Print Assumptions llgr_stale_readvertised_refuted.
+
+(* (9c) Any destination, best-only neighbour: when the new best path is one of the marked
+   peer's, exporting restale_llgr's whole stream leaves the neighbour with a copy that
+   carries LLGR_STALE, or with nothing. *)
+Theorem llgr_stream_best_only :
+  forall x pol raddr cid fam d old any addr best rest e r v0 v,
+    policy_keeps_decodable pol ->
+    (forall p, In p (best :: rest) -> decodable (p_attrs p)) ->
+    src_raddr (p_src best) = addr -> src_llgr (p_src best) = true ->
+    has_entry v0 = em_was_sent e d ->
+    run_changes x pol 1 raddr cid (restale_llgr_changes fam d old any addr (best :: rest)) e = Ok r ->
+    view_after (fst r) d 0 v0 = Some v -> carries_llgr_stale v.
+Proof. exact C09_llgr_stream_best_only. Qed.
+Check llgr_stream_best_only :
+  forall x pol raddr cid fam d old any addr best rest e r v0 v,
+    policy_keeps_decodable pol ->
+    (forall p, In p (best :: rest) -> decodable (p_attrs p)) ->
+    src_raddr (p_src best) = addr -> src_llgr (p_src best) = true ->
+    has_entry v0 = em_was_sent e d ->
+    run_changes x pol 1 raddr cid (restale_llgr_changes fam d old any addr (best :: rest)) e = Ok r ->
+    view_after (fst r) d 0 v0 = Some v -> carries_llgr_stale v.
+Print Assumptions llgr_stream_best_only.
+
+(* (9d) One change of the stream, any export map, both branches ([llgr_change_for]: best-only
+   - the change reports the best as changed and the best is stale; Add-Path - the change
+   names path id pid as replaced and that path is stale): what the neighbour holds for the
+   entry afterwards carries LLGR_STALE. *)
+Theorem llgr_view_refreshed :
+  forall x pol emax raddr cid c e r pid v0 v,
+    policy_keeps_decodable pol ->
+    (forall p, In p (c_paths c) -> decodable (p_attrs p)) ->
+    llgr_change_for emax c e pid v0 ->
+    process_change x pol emax raddr cid c e = Ok r ->
+    view_after (fst r) (c_dest c) pid v0 = Some v -> carries_llgr_stale v.
+Proof. exact C09_llgr_view_refreshed. Qed.
+Check llgr_view_refreshed :
+  forall x pol emax raddr cid c e r pid v0 v,
+    policy_keeps_decodable pol ->
+    (forall p, In p (c_paths c) -> decodable (p_attrs p)) ->
+    llgr_change_for emax c e pid v0 ->
+    process_change x pol emax raddr cid c e = Ok r ->
+    view_after (fst r) (c_dest c) pid v0 = Some v -> carries_llgr_stale v.
+Print Assumptions llgr_view_refreshed.
+
+(* (9e) Add-Path: a change that names a path id as replaced touches what the neighbour holds
+   for it (re-advertised, or withdrawn when no longer among the paths sent). *)
+Theorem llgr_refresh_addpath :
+  forall x pol emax raddr cid c e r pid,
+    emax <> 1 -> process_change x pol emax raddr cid c e = Ok r ->
+    c_any_changed c = true -> c_replaced c = Some pid ->
+    was_sent_path e (c_dest c) pid ->
+    exists op, In op (fst r) /\ touches (c_dest c) pid op = true.
+Proof. exact C09_llgr_refresh_addpath. Qed.
+Check llgr_refresh_addpath :
+  forall x pol emax raddr cid c e r pid,
+    emax <> 1 -> process_change x pol emax raddr cid c e = Ok r ->
+    c_any_changed c = true -> c_replaced c = Some pid ->
+    was_sent_path e (c_dest c) pid ->
+    exists op, In op (fst r) /\ touches (c_dest c) pid op = true.
+Print Assumptions llgr_refresh_addpath.
+
+(* (9f) Best-only: a change that reports the best path as changed touches what the neighbour
+   holds for the destination. *)
+Theorem llgr_refresh_best_only :
+  forall x pol raddr cid c e r,
+    process_change x pol 1 raddr cid c e = Ok r ->
+    c_best_changed c = true -> em_was_sent e (c_dest c) = true ->
+    exists op, In op (fst r) /\ touches (c_dest c) 0 op = true.
+Proof. exact C09_llgr_refresh_best_only. Qed.
+Check llgr_refresh_best_only :
+  forall x pol raddr cid c e r,
+    process_change x pol 1 raddr cid c e = Ok r ->
+    c_best_changed c = true -> em_was_sent e (c_dest c) = true ->
+    exists op, In op (fst r) /\ touches (c_dest c) 0 op = true.
+Print Assumptions llgr_refresh_best_only.
+
+(* as_path_prepend / as_path_prepend_confed cannot panic on any byte string (a62a64e /
+   0db415e: the head test is guarded by len >= 2). *)
+Theorem as_path_prepend_total :
+  forall ty asn buf, exists b, path_prepend_b ty asn buf = Ok b.
+Proof. exact prepend_total. Qed.
+Check as_path_prepend_total :
+  forall ty asn buf, exists b, path_prepend_b ty asn buf = Ok b.
+Print Assumptions as_path_prepend_total.
